@@ -126,6 +126,28 @@ func checkOneOf(c *core.Ctx, s string, convs []conv, twice bool) {
 	}
 }
 
+// splitOnly applies the Split part of the oracle (totality, losslessness, non-empty words).
+func splitOnly(c *core.Ctx, s string) {
+	c.Eval(1)
+	c.Trans(1)
+	var words []string
+	if p := try(func() { words = camelcase.Split(s) }); p != nil {
+		c.Fail("", Case{S: q(s)}, "Split(%s) panicked: %v", q(s), p)
+		return
+	}
+	n := 0
+	for _, w := range words {
+		if w == "" {
+			c.Fail("", Case{S: q(s)}, "Split(%s) = %q contains an empty word", q(s), words)
+			return
+		}
+		n += len(w)
+	}
+	if n != len(s) || strings.Join(words, "") != s {
+		c.Fail("", Case{S: q(s)}, "Split(%s) = %q: concatenation differs from the input", q(s), words)
+	}
+}
+
 func isLetterDigitClass(r rune) bool {
 	// the classes Split treats as lower / upper / digit
 	return isLower(r) || isUpper(r) || isDigit(r)
@@ -233,6 +255,54 @@ func run(c *core.Ctx) {
 			checkOneOf(c, s, convs[:6], c.Thorough())
 		}
 	}
+	// (2c) letters are not interchangeable where code special-cases one of them (a plural 's', an 'I' of
+	// an initialism): every string of <=4 characters over [A-Za-z0-9_] for Split, every string of <=3
+	// (thorough 4) printable ASCII characters for Split and the six converters
+	ident := []string{}
+	for r := 'A'; r <= 'Z'; r++ {
+		ident = append(ident, string(r))
+	}
+	for r := 'a'; r <= 'z'; r++ {
+		ident = append(ident, string(r))
+	}
+	for r := '0'; r <= '9'; r++ {
+		ident = append(ident, string(r))
+	}
+	ident = append(ident, "_")
+	var printable []string
+	for r := ' '; r <= '~'; r++ {
+		printable = append(printable, string(r))
+	}
+	identLen, printLen := c.Pick(4, 5), c.Pick(3, 4)
+	c.Bound("identifier_alphabet_A-Za-z0-9_underscore_max_len_split_only", identLen)
+	c.Bound("printable_ascii_max_len_all_converters", printLen)
+	var walk func(alpha []string, prefix string, left int, f func(string))
+	walk = func(alpha []string, prefix string, left int, f func(string)) {
+		f(prefix)
+		if left == 0 {
+			return
+		}
+		for _, a := range alpha {
+			walk(alpha, prefix+a, left-1, f)
+		}
+	}
+	// sharded by the first two characters
+	for _, a := range ident {
+		for _, b := range ident {
+			if !c.Next() {
+				continue
+			}
+			walk(ident, a+b, identLen-2, func(s string) { splitOnly(c, s) })
+		}
+	}
+	for _, a := range printable {
+		for _, b := range printable {
+			if !c.Next() {
+				continue
+			}
+			walk(printable, a+b, printLen-2, func(s string) { checkOneOf(c, s, convs[:6], false) })
+		}
+	}
 	runSequences(c)
 	if c.Shard == 0 {
 		racePass(c)
@@ -278,7 +348,7 @@ func init() {
 	core.RegisterWorker("c19seq", seqWorker)
 	core.Register(&core.Prop{
 		ID: "C19", Level: "model_checking", Run: run, Replay: replay,
-		Rule: "every string of <=N runes over a 13-symbol rune-class alphabet (lower, upper, digit, '_', '-', '.', space, non-ASCII lower/upper, title-case letter, non-ASCII digit, CJK, NBSP), every such string <=M runes with one invalid UTF-8 sequence inserted at every position, every Unicode scalar value (1,112,064) alone and between two ASCII letters, all ordered pairs of strings <=2 runes in one process, and every call sequence of length 2 (20 inputs) / 3 (6 inputs) / 2 with two different functions (6 inputs) executed in a FRESH process and compared with the single-call result of a fresh process; a case is non-trivial when Split yields more than one word; states = distinct (word count, word-class pattern) outcomes",
+		Rule: "every string of <=N runes over a 13-symbol rune-class alphabet (lower, upper, digit, '_', '-', '.', space, non-ASCII lower/upper, title-case letter, non-ASCII digit, CJK, NBSP), every such string <=M runes with one invalid UTF-8 sequence inserted at every position, every Unicode scalar value (1,112,064) alone and between two ASCII letters, every string of <=4 (5) characters over [A-Za-z0-9_] (Split) and of <=3 (4) printable ASCII characters (Split and converters), all ordered pairs of strings <=2 runes in one process, and every call sequence of length 2 (20 inputs) / 3 (6 inputs) / 2 with two different functions (6 inputs) executed in a FRESH process and compared with the single-call result of a fresh process; a case is non-trivial when Split yields more than one word; states = distinct (word count, word-class pattern) outcomes",
 		Assumptions: []string{
 			"the rune classes the code branches on (unicode.IsLower/IsUpper/IsDigit/IsLetter/IsGraphic, ASCII vs multi-byte) are each represented in the alphabet",
 			"purity is observed through return values of consecutive calls in one process, of call sequences in fresh processes and - as a complement outside the exhaustive part - of concurrent callers under the race detector",
